@@ -12,7 +12,8 @@ stamps, join bookkeeping by reachability).
 import json
 
 RUNNING, WAITING, SUCCESS, ERROR = 'RUNNING', 'WAITING', 'SUCCESS', 'ERROR'
-DONE = (SUCCESS, ERROR, 'SKIPPED')
+CANCELLED = 'CANCELLED'
+DONE = (SUCCESS, ERROR, 'SKIPPED', CANCELLED)
 CMDS = ('fail', 'succeed', 'pause', 'noop')
 
 
@@ -280,6 +281,8 @@ class Model(object):
             return SUCCESS, None
         if kind == 'fail':
             return ERROR, None
+        if t.get('with-items'):
+            return self._with_items_result(s, inst, t)
         key = t.get('key', inst['name'])
         n = s.runs.get(key, 0)
         s.runs[key] = n + 1
@@ -291,7 +294,43 @@ class Model(object):
             return SUCCESS, key
         if isinstance(r, (list, tuple)) and r[0] == 'S':
             return SUCCESS, r[1]
+        if r == 'C':
+            return CANCELLED, 'cancel-%s' % key
         return ERROR, 'boom-%s' % key
+
+    def _with_items_result(self, s, inst, t):
+        """All items of a with-items task: one action (or sub-workflow) per
+        item, ERROR if any item failed, results in item order."""
+        import re
+        m = re.search(r'[$_]\.(\w+)', t['with-items'])
+        items = lookup(m.group(1), self.layers(inst['ctx']))
+        if not isinstance(items, list):
+            raise EvalError('with-items over a non-list')
+        results, failed = [], False
+        prev = inst.get('item_results')
+        for idx, it in enumerate(items):
+            key = str(it)
+            if prev is not None and prev[idx][0] == SUCCESS and \
+                    not inst.get('reset'):
+                results.append(prev[idx])
+                continue
+            n = s.runs.get(key, 0)
+            s.runs[key] = n + 1
+            seq = self.results.get(key) or ['S']
+            r = seq[min(n, len(seq) - 1)]
+            if r == 'S':
+                results.append((SUCCESS, key))
+            elif r == 'C':
+                results.append((CANCELLED, 'cancel-%s' % key))
+            else:
+                failed = True
+                results.append((ERROR, 'boom-%s' % key))
+        inst['item_results'] = results
+        if inst['name'] in self.skipped:
+            return SKIPPED, None
+        if any(x[0] == CANCELLED for x in results):
+            return CANCELLED, [x[1] for x in results]
+        return (ERROR if failed else SUCCESS), [x[1] for x in results]
 
     def _complete(self, s0, iid, forced=None):
         """Instance finishes; returns successor states (several when a data
@@ -319,7 +358,9 @@ class Model(object):
         inst['state'] = state
         self._glob = s.glob
         # publish
-        if state == SKIPPED:
+        if state == CANCELLED:
+            pub_spec = None
+        elif state == SKIPPED:
             pub_spec = t.get('publish-on-skip')
         else:
             pub_spec = t.get('publish') if state == SUCCESS \
@@ -393,7 +434,7 @@ class Model(object):
                     g = _guard(tr)
                     if g is None or self.eval(g, lay, inst):
                         trans.append((_target(tr), 'on-success'))
-            if state != SKIPPED:
+            if state not in (SKIPPED, CANCELLED):
                 for tr in self.P.clause(name, 'on-complete'):
                     g = _guard(tr)
                     if g is None or self.eval(g, lay, inst):
@@ -616,6 +657,9 @@ class Model(object):
         if any(v['state'] in (RUNNING, WAITING) for v in s.insts.values()):
             return
         self._glob = s.glob
+        if any(v['state'] == CANCELLED for v in s.insts.values()):
+            s.wf = CANCELLED
+            return
         unhandled = [v for v in s.insts.values()
                      if v['state'] == ERROR and not v['handled']]
         ends = [(i, v) for i, v in s.insts.items()
